@@ -26,7 +26,7 @@ NA = {
     'C15': 'both directions are string producers/consumers (Display impls, float formatting, escaping, lexer); neither verifier reasons about str contents or format!',
     'C16': 'check not built yet (planned: U-DISP/U-SWT/U-OFF)',
     'C17': 'check not built yet',
-    'C18': 'check not built yet (contingent bounded Kani stand-in, see DESIGN.md)',
+    'C18': 'only a bounded Kani stand-in for Matches::instantiate was within reach (iterator adapters chunks/chain/once, sort_unstable, dedup, into_iter().rev() put it outside the Verus subset); the harness compiles with TableAction::insert and BaseValues::get stubbed but CBMC did not finish within the 15 min / 16 GB cap at 3 matches x 2 choices (sort_unstable/dedup/Vec growth dominate), and the rest of the mechanism (step_rules_with_scheduler, query/action rule split, delayed application modulo later unions) is whole-engine behaviour over closures; no contract within reach decides the property',
     'C19': 'purely a statement over thread schedules (lost wake-ups, scope exit, reader/writer exclusion); no installed deductive tool handles Rust threads or the ArcSwap/UnsafeCell protocol',
     'C20': 'a relation between two executions in different processes (hash seeds, addresses); no per-call postcondition expresses independence of address-space layout',
 }
